@@ -17,22 +17,26 @@ Qed.
 Lemma hypot_pos_neq x y : x <> 0 \/ y <> 0 -> hypot x y <> 0.
 Proof. intros H. pose proof (hypot_pos x y H). lra. Qed.
 
+(** The guards are taken by their truth conditions (nested ifs, guard clauses with early returns and De Morgan forms of the same tests all
+    lead to the same facts): on every path that reaches a division or the square root, the end points differ and -- for the root -- half
+    the chord is at most |R|. *)
+Ltac guard_prop_all := rewrite ?andb_true_iff, ?orb_true_iff, ?negb_true_iff, ?andb_false_iff, ?orb_false_iff, ?negb_false_iff,
+  ?Reqb_true, ?Reqb_false, ?Rleb_true, ?Rleb_false, ?Rltb_true, ?Rltb_false, ?Rgeb_true in *.
+
 Theorem computeArcCenterOffsets_always_safe posX posY endX endY radius cw :
   computeArcCenterOffsets_safe posX posY endX endY radius cw.
 Proof.
   unfold computeArcCenterOffsets_safe. cbv zeta.
-  destruct (negb (Reqb radius 0) && (negb (Reqb posX endX) || negb (Reqb posY endY))) eqn:G; [|exact I].
-  apply andb_true_iff in G. destruct G as (_ & G). apply orb_true_iff in G.
-  assert (NZ : endX - posX <> 0 \/ endY - posY <> 0).
-  { destruct G as [G|G]; apply negb_true_iff in G; apply Reqb_false in G; [left|right]; lra. }
-  assert (D : hypot (endX - posX) (endY - posY) <> 0) by (apply hypot_pos_neq; exact NZ).
   assert (T : IZR 2 <> 0) by (apply IZR_ge1_neq0; lia).
-  repeat split; try exact T.
-  destruct (Rleb (hypot (endX - posX) (endY - posY) / IZR 2) (Rabs radius)) eqn:H; [|exact I].
-  apply Rleb_true in H.
-  repeat split; try exact D.
-  pose proof (hypot_nonneg (endX - posX) (endY - posY)) as HP.
-  assert (H0 : 0 <= hypot (endX - posX) (endY - posY) / IZR 2) by (unfold Rdiv; apply Rmult_le_pos; [exact HP | left; apply Rinv_0_lt_compat; lra]).
-  assert (RR : radius * radius = Rabs radius * Rabs radius) by (unfold Rabs; destruct (Rcase_abs radius); ring).
-  rewrite RR. nra.
+  repeat match goal with |- context [if ?c then _ else _] => let G := fresh "G" in destruct c eqn:G; try exact I end;
+  repeat guard_prop_all;
+  (assert (NE : posX <> endX \/ posY <> endY) by tauto);
+  (assert (NZ : endX - posX <> 0 \/ endY - posY <> 0) by (destruct NE as [NE|NE]; [left|right]; intros E; apply NE; lra));
+  (assert (D : hypot (endX - posX) (endY - posY) <> 0) by (apply hypot_pos_neq; exact NZ));
+  repeat split; try exact T; try exact D; try exact I.
+  all: assert (H : hypot (endX - posX) (endY - posY) / IZR 2 <= Rabs radius) by tauto.
+  all: pose proof (hypot_nonneg (endX - posX) (endY - posY)) as HP.
+  all: assert (H0 : 0 <= hypot (endX - posX) (endY - posY) / IZR 2) by (unfold Rdiv; apply Rmult_le_pos; [exact HP | left; apply Rinv_0_lt_compat; lra]).
+  all: assert (RR : radius * radius = Rabs radius * Rabs radius) by (unfold Rabs; destruct (Rcase_abs radius); ring).
+  all: rewrite RR; nra.
 Qed.
